@@ -37,6 +37,22 @@ CHECKS = {
         technique='Coq invariant proof for a faithful model of NamespaceMapper; differential op sequences; '
                   'decode/encode name resolution on generated documents',
         design='5/C17'),
+    'C03': dict(
+        text='Proof that the modelled attribute-group validation (required check, declared / prohibited / wildcard '
+             'routing, type and fixed-value checks in value space, strict/lax/skip lookup of global declarations) '
+             'reports no error exactly when the set-based statement of the property holds, and that the absent names '
+             'appearing in decoded data are exactly those with a fixed value, a default under use_defaults, or all under '
+             'fill_missing. Tied to the code by seeded declaration sets x wildcards x attribute subsets x options.',
+        technique='Coq proof: faithful model of XsdAttributeGroup/XsdAnyAttribute decoding = declarative spec; '
+                  'differential error kinds, verdicts and filled names',
+        design='5/C03'),
+    'C08': dict(
+        text='Proof that the modelled identity tables report no unique/key/keyref/ID error exactly under the declarative '
+             'conditions (NoDup of qualified tuples, completeness for keys, membership for complete keyref tuples, '
+             'NoDup ids and refs included), per scope instance. Tied to the code by exhaustive small tables and seeded '
+             'templates with lexical variants, missing fields, nested scopes and ID/IDREF.',
+        technique='Coq proof of the identity-table logic against declarative conditions; differential error counts',
+        design='5/C08'),
     'C16': dict(
         text='Proof (all namespace lists, both versions) that the modelled union / intersection / '
              'is_restriction / is_overlap coincide with set union / intersection / inclusion / non-empty '
